@@ -94,9 +94,11 @@ def generate(rng, tier="quick"):
 
 
 def generate_stream_source(rng, tier):
-    tbl = wl.gen_table(rng, max_n=20 if tier == "quick" else 40, index_kinds=("range", "offset", "perm"), unsorted_p=0.12)
+    tbl = wl.gen_table(rng, max_n=20 if tier == "quick" else 40, index_kinds=("range", "offset", "perm"), unsorted_p=0.12, frac_p=0.16)
     cfg = wl.gen_config(rng, tbl, max_ctx=4, max_tests=2, window_layout="disjoint")
     fe = rng.pick(("pandas", "numpy", "netcdf_obj") if tbl.get("unsorted") else ("pandas", "numpy", "xarray_obj", "netcdf_obj"))
+    if tbl.get("frac_ns") or tbl.get("frac_ms"):
+        cfg["carrier"] = rng.pick(("dict", "odict", "json"))
     nmsg = sum(len(c["entries"]) for c in cfg["contexts"])
     orders = [list(range(nmsg))]
     for _ in range(rng.randint(1, 2)):
